@@ -38,6 +38,21 @@ PROPS = {
         ],
         "gen": [],
     },
+    "C14": {
+        "level_text": "Lean 4 theorems over an executable model of create_checkpoint / rewind_to_checkpoint on the C12 file-system model: a checkpoint records exactly the content at checkpoint time; a successful rewind from ANY later state restores every covered path (bytes or absence); rewind never touches an uncovered path; a failed rewind leaves every file as it was (pre-read, apply, rollback phases; undo-map invariant); a patch changes no file other than those it names, so the automatic checkpoint covers every file the tool can change. Tied to the code by differential correspondence: random workspaces x histories of checkpoints (relative/absolute/aliased/escaping paths), forced edits incl. file<->directory flips, and rewinds in any order, under process cwd = root and != root, full tree compared; plus tool-level oracles through the real ToolRunner + WorkspaceCheckpointHook: an automatic checkpoint precedes write/apply_patch and rewinding it restores the whole tree.",
+        "level_note": "Lean kernel; std::fs semantics modelled as in C12; checkpoint metadata JSON and blob storage under .rip/checkpoints are not modelled (the stored bytes are taken to be what was read); rollback order of the real BTreeMap vs list order is immaterial by the untouched-path lemmas and is covered by the correspondence run.",
+        "technique": "Lean 4 proof (algebraic law on the file-system model; undo-map invariant) + differential correspondence check + tool-level oracles",
+        "design_ref": "§5 C14",
+        "trusted_base": COMMON_TB + [
+            "modelled, not verified: std::fs on files vs directories, Path::strip_prefix, serde round trip of checkpoint.json",
+            "hook: ripd::verif_export::WorkspaceCheckpointHook (re-export of the real hook)",
+        ],
+        "assumptions": [
+            "no I/O errors other than the modelled ones; no symlinks; no concurrent writer (C11)",
+            "checkpoint blobs under .rip/checkpoints are not tampered with between create and rewind",
+        ],
+        "gen": [],
+    },
     "C15": {
         "level_text": "Lean 4 theorems over an executable model of the provider byte pipe (UTF-8 carry buffer with U+FFFD replacement as Rust's from_utf8 reports errors, line-based SSE decoder, frame mapper, stop-at-[DONE] read loop): the SSE decoder is chunk-invariant at string level for every partition; exactly one provider frame per event with the payload unchanged; output text = concatenation of deltas; numbering contiguous for every body and chunking; byte-level chunk invariance of the whole pipe (theorem bytes_chunk_invariant, see evidence for whether this build includes it). Tied to the code by differential correspondence: bodies from an SSE grammar incl. invalid UTF-8 x partitions (one chunk, byte-at-a-time, every single split, random) through the real OpenResponsesSsePipe (exported under cfg rip_verif) and through the compiled model; plus unit correspondence for from_utf8 (valid_up_to, error_len) and SseDecoder; plus implementation oracles (chunking invariance against the one-chunk run, seq contiguity, derived text).",
         "level_note": "Lean kernel; JSON parsing and delta extraction are an uninterpreted function evaluated by serde_json on both sides; reqwest/hyper chunk delivery = any partition of the body; the read loop of stream_openresponses_request is mirrored by the exported pipe_feed (the real loop is exercised end to end by C07/C16 scenarios).",
